@@ -178,6 +178,23 @@ pub fn gen_spine_tree(r: &mut Rng, depth: u32) -> E {
     }
     e
 }
+/// a constant-foldable CHAIN of `len` levels (1000-2500 in the streams): `1+1+…+1`, `- - - 1`, `not not … true`, nested three-argument if_then
+/// calls, nested one-element arrays; what needs as many optimizer passes as it has levels (a pass cap or a round limit shows here)
+pub fn gen_chain_tree(r: &mut Rng, len: u32) -> E {
+    // (the left-nested `1+1+…` shape stays below 400 levels: the model's trace function is cubic on it)
+    let shape = { let k = r.below(5); if k == 0 && len > 400 { 4 } else { k } };
+    let mut e = match shape { 2 => lit(V::Boolean(true)), _ => lit(V::Number(1.0)) };
+    for i in 0..len {
+        e = match shape {
+            0 => E::Binary { left: bx(e), right: bx(lit(V::Number(1.0))), operator: if i % 2 == 0 { O::Plus } else { O::Minus } },
+            1 => E::Unary { right: bx(e), operator: O::Minus },
+            2 => E::Unary { right: bx(e), operator: O::Not },
+            3 => E::Call { name: "if_then".into(), params: vec![lit(V::Boolean(i % 3 != 0)), e, lit(V::Number(0.0))] },
+            _ => E::Binary { left: bx(lit(V::Number(2.0))), right: bx(e), operator: O::Multiply },
+        };
+    }
+    if r.chance(1, 3) { E::Binary { left: bx(e), right: bx(E::Variable { name: "x".into() }), operator: O::Plus } } else { e }
+}
 pub fn gen_deep_tree(r: &mut Rng, depth: u32) -> E {
     if depth == 0 { return gen_tree(r, 0, true); }
     let inner = gen_deep_tree(r, depth - 1);
